@@ -72,6 +72,7 @@ TypePriceOf(s, tx) ==
      [] tx.type = "DeclareCandidacy" -> PT(s).DeclareCandidacy
      [] tx.type = "EditCandidate" -> PT(s).EditCandidate
      [] tx.type = "EditCandidateCommission" -> PT(s).EditCandidateCommission
+     [] tx.type = "EditCandidatePublicKey" -> PT(s).EditCandidatePublicKey
      [] tx.type = "VoteUpdate" -> PT(s).VoteUpdate
      [] OTHER -> Zero
 PriceFor(s, tx) == tx.gasPrice ** (TypePriceOf(s, tx) ++ (Nat2A(tx.bytes) ** PT(s).PayloadByte))
